@@ -89,6 +89,22 @@ def observe (s : State) : List String → String
         | none => "!noindex"
       | none => "!noview"
     | _, _ => "bad-op"
+  | ["next", who, tbl, i, last] =>
+    -- the entry an iterator positioned after key `last` ("-" = before the first) yields next
+    match parseNat tbl, parseNat i with
+    | some tbl, some i => match viewOf s who tbl with
+      | some (_, ovs) => match ovs[i]? with
+        | some ov =>
+          let es := if last = "-" then ov.entries
+            else match parseBytes last with
+              | some lk => ov.entries.filter fun e => !(bytesLe e.1 lk)
+              | none => []
+          match es.head? with
+          | some (k, o) => showBytes k ++ ":" ++ toString o
+          | none => "-"
+        | none => "!noindex"
+      | none => "!noview"
+    | _, _ => "bad-op"
   | ["look", who, tbl, i, k] =>
     match parseNat tbl, parseNat i, parseBytes k with
     | some tbl, some i, some k => match viewOf s who tbl with
